@@ -221,3 +221,36 @@ def run_rawmatch(prog):
         if k not in seen_ok:
             res.notes.append("reviewed raw match no longer present: %s" % k)
     return res
+
+
+def run_cfg_mirror(prog):
+    """R-CFG-MIRROR (C04, C12): the parser state mirrors the defcfg options it is named after.
+
+    ParserState is built with struct-update syntax (`..Default::default()`): a field that is not listed silently keeps
+    its default. For every ParserState field whose name is a CfgOptions field name (optionally prefixed `default_`),
+    the value stored in parse_cfg_raw_string must be read from that CfgOptions field - otherwise e.g. `sldr` ignores
+    `(defcfg sequence-timeout N)` and uses 1000 ms."""
+    from kq.analysis import backward_slice
+    res = RuleResult("R-CFG-MIRROR", "ParserState fields named after defcfg options are initialised from them", floor=4)
+    f = prog.fn(CFG + "parse_cfg_raw_string")
+    res.fn(f)
+    opts = prog.adt(CFG + "defcfg::CfgOptions")
+    opt_fields = {fl["name"] for v in opts.get("variants", [opts]) for fl in v.get("fields", [])} if "variants" in opts else {fl["name"] for fl in opts.get("fields", [])}
+    aggs = [(bi, si, st["rv"]) for bi, si, st in f.all_rvalues() if st["rv"]["k"] == "agg" and st["rv"].get("adt") == CFG + "ParserState"]
+    if not aggs:
+        res.viol("anchor", f.loc, "no ParserState aggregate in parse_cfg_raw_string")
+        return res
+    bi, si, rv = aggs[0]
+    for name, op in zip(rv["fn"], rv["ops"]):
+        src = name if name in opt_fields else (name[len("default_"):] if name.startswith("default_") and name[len("default_"):] in opt_fields else None)
+        if src is None:
+            continue
+        fields, _c, _k = backward_slice(f, op, maxdepth=8)
+        ok = any(a == CFG + "defcfg::CfgOptions" and fl == src for a, fl in fields)
+        res.inst("field/" + name, where="%s:%s" % (f.file, f.line_of(bi, si)), from_option=src, ok=ok)
+        res.oblige(ok)
+        if not ok:
+            res.viol("field/" + name, "%s:%s" % (f.file, f.line_of(bi, si)),
+                     "ParserState.%s is not initialised from the defcfg option `%s` (it keeps ParserState::default()): the option is "
+                     "parsed and then ignored by the action parsers" % (name, src))
+    return res
